@@ -640,6 +640,13 @@ class _ExecutorManagerThread(threading.Thread):
             if self.is_shutting_down():
                 self.flag_executor_shutting_down()
 
+                # Work items cancelled before being dispatched are only removed
+                # from pending_work_items when their id is dequeued: do it now,
+                # otherwise they would keep this thread waiting for a wakeup
+                # that never comes.
+                if self.pending_work_items:
+                    self.add_call_item_to_queue()
+
                 # Since no new work items can be added, it is safe to shutdown
                 # this thread if there are no pending work items.
                 if not self.pending_work_items:
